@@ -219,6 +219,37 @@ def run(rep, facts, tier):
     match = any(set(map(repr, cs)) == set(map(repr, c_some)) for cs in c_flag) if c_some else False
     rep.check(ok and match, 'R14.3', 'data_msg/inline-qos-coupling', 'InlineQos flag <=> inline_qos = Some(..) (same controlling condition)',
               'the InlineQos flag and the presence of inline_qos in data_msg are not controlled by the same condition: a reader would mis-parse the submessage', dm.where())
+
+    # ... and that condition is "the parameter list is not empty" (mutation triage: the inverted test keeps flag and Option coupled and drops every inline QoS parameter -
+    # key hash, status info of a dispose, related sample identity - while announcing an empty list otherwise); both builders
+    def nonempty(c):
+        cond, lab = c
+        if cond[0] == 'un' and cond[1] == 'Not' and cond[2][0] == 'call' and cond[2][1].endswith('is_empty') and term_has(cond[2], lambda y: y[0] == 'call' and y[1].endswith('ParameterList::new')):
+            return lab is True
+        if cond[0] == 'call' and cond[1].endswith('is_empty') and term_has(cond, lambda y: y[0] == 'call' and y[1].endswith('ParameterList::new')):
+            return lab is False
+        return None
+    for fn in ('data_msg', 'data_frag_msg'):
+        fb = fx.find('rtps::message::MessageBuilder::' + fn)
+        rep.analysed(fb)
+        og2 = Origins(fb, summaries=False)
+        P2 = Pos(fb)
+        edges2 = list(switch_edges(fb, fx, og2))
+
+        def controlling2(site):
+            out = []
+            for s_, tg, cond, lab in edges2:
+                if isinstance(lab, bool) and P2.can_reach((tg, 0), site) and any((t2, 0) != P2.norm(site) and not P2.can_reach((t2, 0), site, avoid_pos=[(s_, 'term')]) for s2, t2, c2, l2 in edges2 if s2 == s_ and t2 != tg):
+                    if not term_has(cond, lambda y: y[0] == 'call' and 'log' in y[1]):
+                        out.append((cond, lab))
+            return out
+        somes = [(bb, si) for bb, si, st in fb.statements() if st['s'] == 'assign' and st['rv']['r'] == 'agg' and st['rv'].get('variant') == 'Some' and
+                 term_has(og2.of_operand(st['rv']['ops'][0], bb, si), lambda y: y[0] == 'call' and y[1].endswith('ParameterList::new'))]
+        verdicts = [nonempty(c) for s_ in somes for c in controlling2(s_)]
+        verdicts = [v for v in verdicts if v is not None]
+        rep.check(bool(somes) and bool(verdicts) and all(verdicts), 'R14.3', '%s/inline-qos-iff-nonempty' % fn, 'inline_qos = Some(list) exactly when the list is not empty',
+                  '%s does not send the inline QoS parameter list exactly when it has parameters (the test on is_empty() is missing or inverted): the parameters never reach the '
+                  'reader' % fn, fb.where(somes[0][0]) if somes else fb.where())
     # variant table
     table = {}
     for s_, tg, cond, lab in edges:
